@@ -111,6 +111,25 @@ func oddObjects() []oddObj {
 			m["self"] = map[string]interface{}{"again": m}
 			return struct{ F map[string]interface{} }{m}
 		}()},
+		{"map containing itself twice", func() interface{} {
+			m := map[string]interface{}{"F": 1}
+			m["G"], m["H"] = m, m
+			return m
+		}()},
+		{"forty maps, each holding the next one twice", func() interface{} {
+			var cur interface{} = map[string]interface{}{"leaf": 1}
+			for i := 0; i < 40; i++ {
+				cur = map[string]interface{}{"a": cur, "b": cur}
+			}
+			return map[string]interface{}{"F": 1, "G": cur}
+		}()},
+		{"forty slices, each holding the next one twice", func() interface{} {
+			var cur interface{} = []interface{}{1}
+			for i := 0; i < 40; i++ {
+				cur = []interface{}{cur, cur}
+			}
+			return map[string]interface{}{"F": 1, "G": cur}
+		}()},
 		{"map nested 150000 levels deep", func() interface{} {
 			top := map[string]interface{}{}
 			cur := top
@@ -435,6 +454,10 @@ func (p *c08) Enumerate(tier string) [][]int32 {
 			out = append(out, []int32{4, int32(kind), depth - 1, 1}) // (4th draw = 1: keep the depth as given)
 		}
 	}
+	// chains are cheap per link: a few much longer ones
+	for _, depth := range []int32{200000, 600000} {
+		out = append(out, []int32{4, 19, depth - 1, 1})
+	}
 	return out
 }
 
@@ -539,7 +562,7 @@ func (p *c08) usable(o *Outcome, ev *c08Eval, text string, opt bool, after strin
 	}
 }
 
-const nestKinds = 19
+const nestKinds = 20
 
 func nested(kind int, n int) string {
 	rep := strings.Repeat
@@ -574,6 +597,9 @@ func nested(kind int, n int) string {
 		return rep("switch (1) { case 1 { ", n) + "x = 1;" + rep(" } }", n) + " return x;"
 	case 18:
 		return "x = [0]; return " + rep("x[", n) + "0" + rep("]", n) + ";"
+	case 19:
+		// not nested as the user sees it: a long chain of else-if
+		return "x = 0; if (x == 1) { y = 1; }" + rep(" else if (x == 2) { y = 2; }", n) + " else { y = 3; } return y;"
 	case 14:
 		// more distinct constants than a 16-bit operand can index
 		var sb strings.Builder
@@ -953,7 +979,11 @@ func (p *c08) Run(c *verifsim.Chooser, st *Stats, render bool) *Outcome {
 		p.check(o, r2.Escaped, "Run on a value nested at run time")
 	case 4: // deep nesting
 		kind := c.Intn(nestKinds)
-		depth := 1 + c.Intn(50001)
+		lim := 50001
+		if kind == 19 {
+			lim = 600001 // (a chain: cheap per link)
+		}
+		depth := 1 + c.Intn(lim)
 		if c.Intn(8) != 1 {
 			depth = 1 + depth%3000 // mostly moderate depths; the table covers the deep end
 		}
